@@ -184,5 +184,5 @@ EXPLANATION = {'C07': (
     'located by an independent oracle that tiles the base prism with a1 and a2).')}
 ASSUMPTIONS = {'C07': [
     'hexagonal convention (property text): a1 across the first-listed plane, a2 across the third-listed, a3 across the seventh',
-    'hexVertices / hexSortSides: sampled only; develop_lattice for LAT=2: exercised by the bounded hexlattice deck sweep (prisms parallel to z, 2-D index ranges)',
+    'hexVertices / hexSortSides: sampled only; develop_lattice for LAT=2: discharged modular contract (c06, base vectors arbitrary) plus the bounded hexlattice deck sweep (prisms parallel to z, 2-D index ranges)',
 ]}
